@@ -115,6 +115,15 @@ Nested1 ==
                 With(BaseV("Activity", 2), "object", With(BaseV("Activity", 25), "object", Embedded(g, 26)))) }
          : g \in GoTypes}
 
+\* every vocabulary type name on the struct it maps to, top level and embedded (by pointer and by value)
+NamedV(n, k) == With(With(BaseV(GoType(n), k), "type", Str(n)), "name", Nlv(<<LR(NilTag, "named " \o n)>>))
+AllTypeNames ==
+  UNION {{ Case("typename", GoType(n), "type", n, NamedV(n, 12)),
+           Case("typename", "Object", "attachment", "embedded:" \o n, With(BaseV("Object", 2), "attachment", NamedV(n, 13))),
+           Case("typename", "Activity", "object", "by-value:" \o n, With(BaseV("Activity", 2), "object", [NamedV(n, 14) EXCEPT !.ptr = FALSE])),
+           Case("typename", "Object", "tag", "in-list:" \o n, With(BaseV("Object", 2), "tag", ListOf(<<NamedV(n, 15), I1>>))) }
+         : n \in TypeNames}
+
 FirstShape(r, gob) == CHOOSE sh \in Shapes(r.k, r.t, FALSE, gob) : TRUE
 
 \* embedded objects without id and type whose ONLY property is r (in a single-item position and in a list)
